@@ -44,7 +44,7 @@ def compare_after_run(prover, st, ir, run_no):
         if fv == "FREED":
             return "run %d: Fortran %s points to freed storage" % (run_no, fn)
         iv = list(v.items) if isinstance(v, SymArr) else (list(v) if type(v).__name__ == "ndarray" else v)
-        if prover(symx.sym_eq(fv, iv)) == "refuted":
+        if differs(prover, fv, iv):
             return "run %d: %s = %r in Fortran, %r in the interpreter" % (run_no, n, fv, iv)
     # next phase
     want = "dagrt_phase_" + ir.it.next_phase
@@ -63,13 +63,29 @@ def compare_after_run(prover, st, ir, run_no):
             iv = list(val.items) if isinstance(val, SymArr) else (list(val) if type(val).__name__ == "ndarray" else val)
             if fv is None or fv == "FREED":
                 return "run %d: slot %s is %s" % (run_no, slot, fv)
-            if prover(symx.sym_eq(fv, iv)) == "refuted":
+            if differs(prover, fv, iv):
                 return "run %d: %s = %r in Fortran, interpreter yielded %r" % (run_no, slot, fv, iv)
         tid = "dagrt_time_" + str(ev.time_id)
         if tid in st.mod.params:
             if prover(symx.sym_eq(st.field("ret_time_id_" + c), st.param(tid))) == "refuted":
                 return "run %d: ret_time_id_%s = %r, expected %s" % (run_no, c, st.field("ret_time_id_" + c), tid)
     return None
+
+
+ROUNDING = {"count": 0}
+
+
+def differs(prover, fv, iv):
+    """Exact equality first; a refuted equality still holds if the two values provably agree up to the relative
+    tolerance the concrete replay uses (1e-9): differences of one unit in the last place (constants folded in floating
+    point on one side, exactly on the other) are outside the claim."""
+    if prover(symx.sym_eq(fv, iv)) != "refuted":
+        return False
+    close = symx.sym_close(fv, iv)
+    if close is not None and prover(close) == "valid":
+        ROUNDING["count"] += 1
+        return False
+    return True
 
 
 def lockstep(prover, prog, dag, txt, K, inputs, ops):
@@ -191,7 +207,8 @@ def work(item):
         samples.append({"program": prog.get("name"), "paths": paths})
     tr.stop()
     return {"stats": st.as_dict(), "candidates": cands, "evaluations": n, "programs": n,
-            "distinct_nontrivial": nontriv, "samples": samples[:2], "functions": sorted(tr.seen)}
+            "distinct_nontrivial": nontriv, "samples": samples[:2], "functions": sorted(tr.seen),
+            "extra": {"equalities_proved_only_up_to_relative_tolerance_1e-9": ROUNDING["count"]}}
 
 
 def side_checks(progs, do_conformance):
@@ -477,6 +494,9 @@ def main(tier, seed):
         "outside: LAPACK-backed built-ins (linear_solve, svd, matmul, transpose) and isnan (no NaN in the real-number model)",
         "'the module compiles' is decided by gfortran -fsyntax-only (concrete side check), not by the solver",
         "reads of never-written elements of a fresh <builtin>array are outside the claim",
+        "an equality that is refuted exactly but PROVED up to the relative tolerance 1e-9 (the one the concrete replay uses) counts as discharged: "
+        "exact rational arithmetic also sees one-ulp differences from constants folded in floating point on one side only; real literals without a d "
+        "exponent are single precision (nearest binary32 value), as in Fortran",
         "division by zero is outside the claim: a refuted equality is re-proved under 'every denominator met on the path is non-zero' "
         "(z3's real x/0 is an arbitrary value and says nothing about IEEE inf/nan); IEEE division is exercised by the concrete conformance runs only",
     ]
